@@ -48,11 +48,13 @@ package keeper
 //@   requires forall h int :: 0 <= h && h <= MaxUint64 && has(ExpiredData, h) ==> ExpiredData[h].Height == h
 //@   requires [C11.sched.once] has(ExpiredData, u64(meta.CreatedAt + meta.Duration)) ==> forall i int, j int :: 0 <= i && i < j && j < len(ExpiredData[u64(meta.CreatedAt + meta.Duration)].Data)
 //@         ==> !(ExpiredData[u64(meta.CreatedAt + meta.Duration)].Data[i] == meta.DataId && ExpiredData[u64(meta.CreatedAt + meta.Duration)].Data[j] == meta.DataId)
+//@   requires meta.CreatedAt + meta.Duration <= MaxUint64
 //@   modifies *meta, ExpiredData
 //@   ensures [C05.reset.frame] meta.DataId == old(meta.DataId) && meta.Owner == old(meta.Owner) && meta.Alias == old(meta.Alias) && meta.GroupId == old(meta.GroupId)
 //@       && meta.OrderId == old(meta.OrderId) && meta.Commits == old(meta.Commits) && meta.Orders == old(meta.Orders) && meta.Commit == old(meta.Commit)
 //@       && meta.Status == old(meta.Status) && meta.CreatedAt == old(meta.CreatedAt) && meta.Cid == old(meta.Cid)
 //@       && meta.ReadonlyDids == old(meta.ReadonlyDids) && meta.ReadwriteDids == old(meta.ReadwriteDids)
+//@   ensures [C11.reset.nowrap] meta.CreatedAt + meta.Duration <= MaxUint64 && meta.CreatedAt + meta.Duration >= meta.CreatedAt
 //@   loop L1 invariant -1 <= rangeindex
 //@   loop L2 invariant -1 <= rangeindex
 //@   loop L3 invariant -1 <= rangeindex
